@@ -62,6 +62,9 @@ q('try_mix_cap1', 1, ['TRYPUSH(0);TRYPUSH(1)', 'TRYPOP();TRYPOP()'], extra_defs=
 q('try_must_cap2', 2, ['PUSH(0);SIGNAL(0)', 'AWAIT(0);MUST_TRYPOP()'], props={'assert': 'C01'})
 q('try_must_push_cap1', 1, ['PUSH(0);SIGNAL(0);', 'AWAIT(0);POP();SIGNAL(1)', 'AWAIT(1);MUST_TRYPUSH(0)'], extra_defs=['VF_LEFT=1'], props={'assert': 'C01'})
 q('tryn_cap2', 2, ['PUSHN(0,2);SIGNAL(0)', 'AWAIT(0);TRYPOPN(2)'], props={'assert': 'C01'})
+# single-producer try_push_n whose batch wraps the ring while a consumer is still inside its pop on the tail slot and a later
+# ticket (head slot, next epoch) is already done: the short tail segment must end the batch
+q('trypushn_nc_wrap_short_tail', 2, ['PUSH(0);PUSH(1);PUSH(2);TRYPUSHN_NC(3,2);SIGNAL(0)', 'POP();POPCB_AWAIT(0)', 'POP()'], nr=5, extra_defs=['VF_LEFT=1'], props={'assert': 'C01'})
 q('spin_wait_futexless', 1, ['PUSH(0);PUSH(1)', 'POP();POP()'], extra_defs=['VF_FW=false', 'VF_FK=false'], props={'assert': 'C01'})
 q('nonconc_producer', 2, ['PUSH(0);PUSH(1)', 'POP()', 'POP()'], extra_defs=['VF_C=true'], tiers=('thorough',))
 
@@ -257,8 +260,8 @@ CXX_ = ['babylon/basic_executor.cpp']
 for _k, _nm in ((0, 'cancellable'), (1, 'future'), (2, 'task')):
     S('cx_seq_' + _nm, 'coro/cx_seq.cpp', {'assert': 'C13'}, std=20, defs=['VF_KIND=%d' % _k], extra=CXX_, models=['sc'], bound=8)
 CX2FIN = 'vf_check(resumed[1] == 0 && finished[1] == 0, 6); SET(1, 43); vf_check(resumed[1] == 1 && has_value[1] == 1 && value[1] == 43 && in_exec_at_resume[1] == 1, 7)'
-S('cx2_cancel_vs_new_wait', 'coro/cx2.cpp', {'assert': 'C13'}, std=20, defs=['VF_T0=CANCEL(0)', 'VF_T1=START(1)', 'VF_FINAL=vf_check(cancel_ret[0] == 1 && resumed[0] == 1 && has_value[0] == 0 && in_exec_at_resume[0] == 1, 4); ' + CX2FIN], extra=CXX_, tiers=DEV)
-S('cx2_finish_vs_new_wait', 'coro/cx2.cpp', {'assert': 'C13'}, std=20, defs=['VF_T0=SET(0, 42)', 'VF_T1=START(1)', 'VF_FINAL=vf_check(resumed[0] == 1 && has_value[0] == 1 && value[0] == 42 && in_exec_at_resume[0] == 1, 4); ' + CX2FIN], extra=CXX_, tiers=DEV)
+S('cx2_cancel_vs_new_wait', 'coro/cx2.cpp', {'assert': 'C13'}, std=20, defs=['VF_T0=CANCEL(0)', 'VF_T1=START(1)', 'VF_FINAL=vf_check(cancel_ret[0] == 1 && resumed[0] == 1 && has_value[0] == 0 && in_exec_at_resume[0] == 1, 4); ' + CX2FIN], extra=CXX_, tiers=DEV, bound=2)
+S('cx2_finish_vs_new_wait', 'coro/cx2.cpp', {'assert': 'C13'}, std=20, defs=['VF_T0=SET(0, 42)', 'VF_T1=START(1)', 'VF_FINAL=vf_check(resumed[0] == 1 && has_value[0] == 1 && value[0] == 42 && in_exec_at_resume[0] == 1, 4); ' + CX2FIN], extra=CXX_, tiers=DEV, bound=2)
 CXFIN = 'vf_check(resumed == 1 && finished == 1 && in_exec_at_resume == 1, 4); vf_check((cancel_ret == 1) == (has_value == 0), 3); if (has_value) vf_check(value == 42, 3)'
 S('cx_cancel_vs_set', 'coro/cx.cpp', {'assert': 'C13'}, std=20, defs=['VF_KIND=0', 'VF_T0=SET(42)', 'VF_T1=CANCEL()', 'VF_FINAL=' + CXFIN], extra=CXX_, tiers=DEV)
 S('cx_future_set', 'coro/cx.cpp', {'assert': 'C13'}, std=20, defs=['VF_KIND=1', 'VF_T0=SET(42)', 'VF_T1=vf_yield()', 'VF_FINAL=vf_check(resumed == 1 && finished == 1 && value == 42 && in_exec_at_resume == 1, 4)'], extra=CXX_, tiers=DEV)
@@ -422,8 +425,8 @@ S('ht_two_keys_same_tag', 'hashtable/ht3.cpp', {'assert': 'C03'})
 S('ht_two_keys_same_tag_prefilled', 'hashtable/ht3.cpp', {'assert': 'C03'}, defs=['VF_PREFILL=3'])
 S('ht_two_keys_same_tag_lookup', 'hashtable/ht3.cpp', {'assert': 'C03'}, defs=['VF_LOOKUP=1'])
 # growing set: two threads emplace while the full head table forces a new table to be chained
-S('hs_conc_grow_same_key', 'hashset/hs_conc.cpp', {'assert': 'C03'}, extra=['babylon/concurrent/transient_hash_table.cpp'], tiers=('dev',))
-S('hs_conc_grow_two_keys', 'hashset/hs_conc.cpp', {'assert': 'C03'}, extra=['babylon/concurrent/transient_hash_table.cpp'], defs=['VF_K1=0x0612'], tiers=('dev',))
+S('hs_conc_grow_same_key', 'hashset/hs_conc.cpp', {'assert': 'C03'}, extra=['babylon/concurrent/transient_hash_table.cpp'], tiers=('dev',), bound=2)
+S('hs_conc_grow_two_keys', 'hashset/hs_conc.cpp', {'assert': 'C03'}, extra=['babylon/concurrent/transient_hash_table.cpp'], defs=['VF_K1=0x0612'], tiers=('dev',), bound=2)
 # full table: insertion fails without consuming its argument
 S('ht_full_refuses', 'hashtable/ht_full.cpp', {'assert': 'C03'}, models=['sc'], bound=100)
 S('ht_probe_two_full_groups', 'hashtable/ht_probe.cpp', {'assert': 'C03'}, models=['sc'], bound=100, defs=['VF_FULL_GROUPS=2'])
